@@ -355,6 +355,48 @@ def reduceF : Nat → Expr → Outcome Expr
 
 def Expr.reduce (e : Expr) : Outcome Expr := reduceF (e.size + 1) e
 
+/-! ### normal forms (what C07's idempotence theorem is about; also evaluated per case by the driver) -/
+
+namespace Expr
+
+mutual
+/-- Normal form of `reduce`. -/
+def NF : Expr → Bool
+  | leaf _ => true
+  | node k cs =>
+    match k with
+    | .param .set => false
+    | .param (.expectValue _ _) => true
+    | .param .expectFees => true
+    | .param (.expectInput _ _ _) => NFL cs
+    | .builtin .noop => false
+    | .coerce .noop => false
+    | .builtin _ => NFL cs && !isConstantL cs
+    | .coerce _ => NFL cs && !isConstantL cs
+    | _ => NFL cs                       -- list, map, tuple, struct, assets, compiler, adhoc, utxoSet
+def NFL : List Expr → Bool
+  | [] => true
+  | c :: cs => NF c && NFL cs
+end
+
+mutual
+/-- Payloads of substituted parameters and the expressions held by resolved UTxOs are values. -/
+def WF : Expr → Bool
+  | leaf _ => true
+  | node k cs =>
+    match k with
+    | .param .set => NFL cs
+    | .param (.expectValue _ _) => true
+    | .param .expectFees => true
+    | .utxoSet _ => NFL cs
+    | _ => WFL cs
+def WFL : List Expr → Bool
+  | [] => true
+  | c :: cs => WF c && WFL cs
+end
+
+end Expr
+
 /-! ### The compiler pass (`Node::apply` with the compiler as visitor) -/
 
 /-- The chain-specific evaluation of a compiler op on its (reduced) operands. -/
